@@ -150,6 +150,13 @@ def check_copy(U, a, enc, hist, sel, mode, acc, follow_ups=True):
             return X.subtree(X.tasks(lambda t: id(t) in picked))
         return X.subtree([U.tasks[i] for i in sel])
 
+    # attribute values that are containers (a tuple of labels, a set of codes; a tuple on the WBS) - set here, after the restore,
+    # so that the universes of the other properties stay as they are
+    if members:
+        first = U.tasks[members[0]]
+        first.labels = ('backend', 'urgent')
+        first.codes = {1, 2}
+    X.sprints = (14, 15)
     src_before = obs_members(U, 0)
     links_before = links_of_members(U, members)
     try:
@@ -221,6 +228,8 @@ def check_copy(U, a, enc, hist, sel, mode, acc, follow_ups=True):
     # (d) WBS-level public attributes
     if getattr(cw, 'title', None) != X.title:
         V('wbs-attributes-missing', '-', f'copy.title = {getattr(cw, "title", None)!r}, source {X.title!r}')
+    if getattr(cw, 'sprints', None) != (14, 15):
+        V('wbs-attributes-differ', 'container-value', f'copy.sprints = {getattr(cw, "sprints", None)!r}, source (14, 15)')
     # (h) independence: changes to the copy do not show on the source, and vice versa
     cobs0 = copy_obs(cw)
     for kind in (MUTATIONS if follow_ups else ()):
